@@ -1,7 +1,7 @@
 /-
   The statements of `float/src/{exp,log,fbig}.rs` that fix the working precisions, guard digits, branch tests and
   stop tests mirrored by `Model/Trans/Series.lean` (and `Powi.lean` / `PowiNeg.lean`), as TEXT (comments stripped,
-  white space collapsed) — recorded from /repo at fa3b7b8.  On every run `vlib/props/c11.py` (`source_formulas`)
+  white space collapsed) — recorded from /repo at fa3b7b8 (the `add.*` rows at 164990d).  On every run `vlib/props/c11.py` (`source_formulas`)
   extracts the same statements from the repository under check and the driver compares them with this table
   (op `tie.formula`): a changed statement is reported as a broken correspondence (the mirror must be re-done),
   independently of whether any generated input happens to expose the change.
@@ -39,7 +39,18 @@ def sourceFormulas : List (String × String × String) := [
   ("ln.grow_test", "if s < 0 || x_scaled.repr.sign() == Sign::Negative {", "lnBody"),
   ("ln.grow", "work_precision += self.precision;", "lnBody"),
   ("ln.stop_test", "if increase.abs_cmp(&sum.sub_ulp()).is_le() {", "lnLoop"),
-  ("sub_ulp.exponent", "exponent: self.repr.exponent + self.repr.digits_lb() as isize - self.context.precision as isize - 1, }", "fSubUlp")]
+  ("sub_ulp.exponent", "exponent: self.repr.exponent + self.repr.digits_lb() as isize - self.context.precision as isize - 1, }", "fSubUlp"),
+  -- round 6 (recorded from /repo at 164990d): the zero-operand arms of the four `FBig ± FBig` helpers of `float/src/add.rs`,
+  -- which round the other operand to the max context since that commit (`fAddSub`, `Props/C11Series.fAddSub_zero_operand`)
+  ("add.val_val.zero_lhs", "context.repr_round(rhs.repr).value() }", "fAddSub"),
+  ("add.val_val.zero_rhs", "context.repr_round(lhs.repr).value() }", "fAddSub"),
+  ("add.val_ref.zero_lhs", "context.repr_round(repr).value() }", "fAddSub"),
+  ("add.val_ref.zero_rhs", "context.repr_round(lhs.repr).value() }", "fAddSub"),
+  ("add.ref_val.zero_lhs", "context.repr_round(rhs.repr).value() }", "fAddSub"),
+  ("add.ref_val.zero_rhs", "context.repr_round_ref(&lhs.repr).value() }", "fAddSub"),
+  ("add.ref_ref.zero_lhs", "context.repr_round(repr).value() }", "fAddSub"),
+  ("add.ref_ref.zero_rhs", "context.repr_round_ref(&lhs.repr).value() }", "fAddSub"),
+  ("add.max_context", "let context = Context::max(lhs.context, rhs.context);", "ctxMaxP / fAddSub")]
 
 def sourceFormula? (name : String) : Option String :=
   (sourceFormulas.find? (·.1 == name)).map (·.2.1)
